@@ -89,7 +89,9 @@ Definition name_eqb (a b : name) : bool :=
 Inductive chunk :=
 | CkLog (es : list entry)            (* a log record: the entries of a whole number of batches *)
 | CkSst (es : list entry)            (* (a piece of) an SST *)
-| CkEdit (add rm : list sname).      (* one manifest edit: +add, -rm *)
+| CkEditL (add rm : list sname) (l : option N).   (* one manifest edit: +add, -rm, and (a flush) info L = the
+                                                     number of the log the flush made redundant *)
+Notation CkEdit add rm := (CkEditL add rm None).
 
 Record file := mkFile { f_data : list chunk; f_dur : nat }.
 
@@ -208,12 +210,15 @@ Definition add_sname (l : list sname) (x : sname) : list sname := if mem_sname x
 (* Manifest::apply_edit: removals first, then additions (a name both removed and added stays) *)
 Definition apply_edit (strs : list sname) (c : chunk) : list sname :=
   match c with
-  | CkEdit add rm => fold_left add_sname add (filter (fun x => negb (mem_sname x rm)) strs)
+  | CkEditL add rm _ => fold_left add_sname add (filter (fun x => negb (mem_sname x rm)) strs)
   | _ => strs
   end.
 
 Definition mani_edits (s : fs) : list chunk :=
   match lookup NMani s with Some f => f_data f | None => [] end.
+(* Manifest::info('L'): the last value an edit set; 0 when none did *)
+Definition mani_L (s : fs) : N :=
+  fold_left (fun acc c => match c with CkEditL _ _ (Some l) => l | _ => acc end) (mani_edits s) 0.
 Definition strs_of (edits : list chunk) : list sname := fold_left apply_edit edits [].
 Definition mani_strs (s : fs) : list sname := strs_of (mani_edits s).
 
@@ -245,12 +250,23 @@ Definition max_ts (es : list entry) : N := fold_right (fun e m => N.max (ets e) 
      Defer n  `let ret = ..` : the error is kept and returned at the end, the next n calls (the
                                rest of the manifest edit in compaction_finish) are skipped, the
                                clean-up still runs *)
-Inductive mode := Must | Ignore | Retire | Exist | Defer (n : nat).
+Inductive mode := Must | Ignore | Retire | Exist | Defer (n : nat) | Late (n : nat).
 Definition prog := list (call * mode).
 Definition must (cs : list call) : prog := map (fun c => (c, Must)) cs.
 Definition calls_of (p : prog) : list call := map fst p.
 
-Inductive err := EIo | EDuplicate.
+Inductive err := EIo | EDuplicate | ELate.
+
+(* the inputs of a compaction are retired (`Retire`) unless the manifest edit failed (a deferred
+   EIo: the new version was never installed); an error of the clean-up after the edit (`Late`) is
+   kept as ELate - the rest of the clean-up is skipped, the inputs are still retired *)
+Definition retire_suppressed (m : mode) (deferred : option err) : bool :=
+  match m, deferred with
+  | Retire, Some EIo => true
+  | Retire, Some EDuplicate => true
+  | _, _ => false
+  end.
+Definition late_err (deferred : option err) : err := match deferred with Some e => e | None => ELate end.
 
 (* run a program; `fault = Some k`: the k-th call from here (0-based) fails with an I/O error.
    Result: the directory afterwards and the error returned, if any. *)
@@ -261,23 +277,49 @@ Fixpoint run_prog (p : prog) (fault : option nat) (skip : nat) (s : fs) (deferre
       match skip with
       | S k => run_prog p' fault k s deferred          (* not issued *)
       | O =>
-          match m, deferred with
-          | Retire, Some _ => run_prog p' fault O s deferred      (* not issued *)
-          | _, _ =>
-              let injected := match fault with Some O => true | _ => false end in
-              let fault' := match fault with Some (S k) => Some k | _ => None end in
-              match (if injected then None else exec c s) with
-              | Some s' => run_prog p' fault' O s' deferred
-              | None =>
-                  match m with
-                  | Must => (s, Some EIo)
-                  | Ignore => run_prog p' fault' O s deferred
-                  | Retire => run_prog p' fault' O s deferred
-                  | Exist => if injected then (s, Some EIo) else run_prog p' fault' O s deferred
-                  | Defer n => run_prog p' fault' n s (Some EIo)
-                  end
-              end
-          end
+          if retire_suppressed m deferred then run_prog p' fault O s deferred      (* not issued *)
+          else
+            let injected := match fault with Some O => true | _ => false end in
+            let fault' := match fault with Some (S k) => Some k | _ => None end in
+            match (if injected then None else exec c s) with
+            | Some s' => run_prog p' fault' O s' deferred
+            | None =>
+                match m with
+                | Must => (s, Some EIo)
+                | Ignore => run_prog p' fault' O s deferred
+                | Retire => run_prog p' fault' O s deferred
+                | Exist => if injected then (s, Some EIo) else run_prog p' fault' O s deferred
+                | Defer n => run_prog p' fault' n s (Some EIo)
+                | Late n => run_prog p' fault' n s (Some (late_err deferred))
+                end
+            end
+      end
+  end.
+
+(* the calls such a run issues, in order (the one the error is injected into included) *)
+Fixpoint issued (p : prog) (fault : option nat) (skip : nat) (s : fs) (deferred : option err) : list call :=
+  match p with
+  | [] => []
+  | (c, m) :: p' =>
+      match skip with
+      | S k => issued p' fault k s deferred
+      | O =>
+          if retire_suppressed m deferred then issued p' fault O s deferred
+          else
+            let injected := match fault with Some O => true | _ => false end in
+            let fault' := match fault with Some (S k) => Some k | _ => None end in
+            c :: match (if injected then None else exec c s) with
+                 | Some s' => issued p' fault' O s' deferred
+                 | None =>
+                     match m with
+                     | Must => []
+                     | Ignore => issued p' fault' O s deferred
+                     | Retire => issued p' fault' O s deferred
+                     | Exist => if injected then [] else issued p' fault' O s deferred
+                     | Defer n => issued p' fault' n s (Some EIo)
+                     | Late n => issued p' fault' n s (Some (late_err deferred))
+                     end
+                 end
       end
   end.
 
@@ -321,8 +363,11 @@ Definition flush_prog (v : vstate) (s : fs) : prog * bool :=
   let x := sort_entries (v_mem v) in
   let p1 := [CCreate (NLog (v_seq v)); CCreate (NTmp x); CWrite (NTmp x) (CkSst x); CSync (NTmp x)] in
   if exists_name (NSst x) s then (must p1, false)
-  else (must (p1 ++ [CLink (NTmp x) (NSst x)] ++ mani_apply (CkEdit [x] []) ++
+  else (must (p1 ++ [CLink (NTmp x) (NSst x)] ++ mani_apply (CkEditL [x] [] (Some (v_cur v))) ++
               [CUnlink (NTmp x); CRename (NLog (v_cur v)) (NTrashLog (v_cur v))]), true).
+
+Fixpoint late (cs : list call) : prog :=
+  match cs with [] => [] | c :: r => (c, Late (length r)) :: late r end.
 
 (* perform_compaction / perform_garbage_collection: compaction_setup (remove_dir_all of a left-over
    directory, create_dir), SstMultiBuilder (each output: create_new, writes, sync_all, in turn),
@@ -336,7 +381,7 @@ Definition compact_prog (gc : bool) (ins outs : list sname) (s : fs) : prog :=
   let d := sort_entries (concat ins) in
   let eo := enumerate 0 outs in
   let retire := map (fun x => (CRename (NSst x) (NTrashSst x), Retire)) (filter (fun x => negb (mem_sname x outs)) ins) in
-  let cleanup := must (map (fun ix => CUnlink (NComp d (fst ix))) eo ++ [CRmdir (NCompDir d)]) in
+  let cleanup_calls := map (fun ix => CUnlink (NComp d (fst ix))) eo ++ [CRmdir (NCompDir d)] in
   (if exists_name (NCompDir d) s
    then must (map CUnlink (comp_files d s) ++ [CRmdir (NCompDir d)]) else []) ++
   must [CMkdir (NCompDir d)] ++
@@ -344,7 +389,9 @@ Definition compact_prog (gc : bool) (ins outs : list sname) (s : fs) : prog :=
   (* a link onto an existing sst/<setsum> fails with EEXIST, which is tolerated *)
   map (fun ix => (CLink (NComp d (fst ix)) (NSst (snd ix)), Exist)) eo ++
   [(COpenAppend NMani, Defer 2); (CWrite NMani (CkEdit outs ins), Defer 1); (CSync NMani, Defer 0)] ++
-  (if gc then retire ++ cleanup else cleanup ++ retire).
+  (* a failing clean-up call ends the clean-up; perform_compaction then drops its snapshot of the
+     old version, which retires the inputs all the same *)
+  (if gc then retire ++ must cleanup_calls else late cleanup_calls ++ retire).
 
 Definition op_prog (v : vstate) (s : fs) (o : op) : prog * bool :=
   match o with
@@ -359,6 +406,87 @@ Definition op_next (v : vstate) (o : op) : vstate :=
   | OpFlush => mkV [] (apply_edit (v_files v) (CkEdit [sort_entries (v_mem v)] [])) (v_seq v + 1) (v_seq v)
   | OpCompact _ ins outs => mkV (v_mem v) (apply_edit (v_files v) (CkEdit outs ins)) (v_seq v) (v_cur v)
   end.
+
+(* ------------------------------------------------------------------ what a reader sees; which steps the theorems take *)
+(* the newest version of a key among a list of entries, and what it reads as *)
+Fixpoint newest (E : list entry) (k : key) : option entry :=
+  match E with
+  | [] => None
+  | e :: r => if key_eqb (ek e) k
+              then match newest r k with Some b => if ets e <? ets b then Some b else Some e | None => Some e end
+              else newest r k
+  end.
+Definition vis (E : list entry) (k : key) : option (list N) := shown (newest E k).
+
+Fixpoint keys_nodupb (ks : list key) : bool :=
+  match ks with [] => true | k :: r => negb (existsb (key_eqb k) r) && keys_nodupb r end.
+Definition mem_ent (e : entry) (l : list entry) : bool := existsb (ent_eqb e) l.
+Definition compact_okb (v : vstate) (ins outs : list sname) : bool :=
+  forallb (fun x => mem_sname x (v_files v)) ins && forallb (fun e => mem_ent e (concat ins)) (concat outs).
+
+(* the executable form of ProofsLts.accepted: the driver evaluates it on every step *)
+Definition acceptedb (v : vstate) (o : op) : bool :=
+  match o with
+  | OpWrite b => keys_nodupb (map fst b)
+  | OpFlush => true
+  | OpCompact gc ins outs =>
+      compact_okb v ins outs &&
+      forallb (fun e => opt_eqb (vis (all_entries (op_next v o)) (ek e)) (vis (all_entries v) (ek e))) (all_entries v)
+  end.
+
+(* ------------------------------------------------------------------ going on after an error *)
+(* the volatile state after an operation returned an error without having changed a file recovery
+   reads: a write has consumed its sequence number, nothing else moved *)
+Definition fault_next (v : vstate) (o : op) : vstate :=
+  match o with
+  | OpWrite _ => mkV (v_mem v) (v_files v) (v_seq v + 1) (v_cur v)
+  | _ => v
+  end.
+
+(* what the driver tracks on top: has the current log failed (FailStop / poison: every later append
+   is refused before a byte is written), has the memtable thread died (every later flush is refused) *)
+Record xstate := mkX { x_v : vstate; x_log_ok : bool; x_flush_ok : bool }.
+
+(* the calls of the next operation; None: outside what the model continues (a flush while the log
+   has failed rolls over to a new log and then dies sealing the old one) *)
+Definition xop_prog (x : xstate) (s : fs) (o : op) : option (prog * bool) :=
+  match o with
+  | OpWrite _ => if x_log_ok x then Some (op_prog (x_v x) s o) else Some ([], false)
+  | OpFlush => if x_flush_ok x then (if x_log_ok x then Some (op_prog (x_v x) s o) else None) else Some ([], false)
+  | OpCompact _ _ _ => Some (op_prog (x_v x) s o)
+  end.
+
+Definition xnext_ok (x : xstate) (o : op) : xstate := mkX (op_next (x_v x) o) (x_log_ok x) (x_flush_ok x).
+Definition xnext_err (x : xstate) (o : op) : xstate :=
+  match o with
+  | OpWrite _ => mkX (fault_next (x_v x) o) false (x_flush_ok x)
+  | OpFlush => mkX (x_v x) (x_log_ok x) false
+  | OpCompact _ _ _ => x
+  end.
+
+(* the names recovery reads *)
+Definition relevant (n : name) : bool :=
+  match n with NMani | NLog _ | NSst _ => true | _ => false end.
+
+(* did an error leave every file recovery reads as it was?  (decides whether the model goes on) *)
+Definition optn_eqb (a b : option N) : bool :=
+  match a, b with None, None => true | Some x, Some y => x =? y | _, _ => false end.
+Definition chunk_eqb (a b : chunk) : bool :=
+  match a, b with
+  | CkLog x, CkLog y => sname_eqb x y
+  | CkSst x, CkSst y => sname_eqb x y
+  | CkEditL a1 r1 l1, CkEditL a2 r2 l2 => snames_eqb a1 a2 && snames_eqb r1 r2 && optn_eqb l1 l2
+  | _, _ => false
+  end.
+Definition file_eqb (a b : option file) : bool :=
+  match a, b with
+  | None, None => true
+  | Some f, Some g => Nat.eqb (f_dur f) (f_dur g) && Nat.eqb (length (f_data f)) (length (f_data g)) &&
+                      forallb (fun cd => chunk_eqb (fst cd) (snd cd)) (combine (f_data f) (f_data g))
+  | _, _ => false
+  end.
+Definition same_relb (s s' : fs) : bool :=
+  forallb (fun n => negb (relevant n) || file_eqb (lookup n s) (lookup n s')) (map fst s ++ map fst s').
 
 (* ------------------------------------------------------------------ KeyValueStore::open *)
 (* ensure_dir: create_dir unless it is there *)
@@ -399,7 +527,7 @@ Fixpoint recover_calls (ns : list N) (s : fs) : list call * N :=
 Fixpoint removed_not_readded (edits : list chunk) (acc : list sname) : list sname :=
   match edits with
   | [] => acc
-  | CkEdit add rm :: r =>
+  | CkEditL add rm _ :: r =>
       removed_not_readded r (filter (fun x => negb (mem_sname x add)) (fold_left add_sname rm acc))
   | _ :: r => removed_not_readded r acc
   end.
@@ -421,8 +549,10 @@ Definition open_prog (s : fs) : prog * vstate * bool :=
   let c4 := orphan_calls s3 in
   let s4 := replay c4 s3 in
   let files := mani_strs s4 in
-  (* the log carries the number of its memtable: max(recovered + 1, largest timestamp in the tree) *)
-  let seq0 := N.max (rec + 1) (max_ts (concat files)) in
+  (* the log carries the number of its memtable: max(recovered + 1, largest timestamp in the tree,
+     the number of the last flushed log + 1 - a garbage collection can have dropped every entry
+     newer than that log) *)
+  let seq0 := N.max (N.max (rec + 1) (max_ts (concat files))) (mani_L s4 + 1) in
   let c5 := [CCreate (NLog seq0)] in
   (must (c1 ++ c2 ++ c3) ++ map (fun c => (c, Ignore)) c4 ++ must c5,
    mkV [] files (seq0 + 1) seq0,
